@@ -31,7 +31,7 @@ def run_one(sid, props, tier, seed):
     env['VERIF_SEED'] = str(seed)
     for p in props:
         t0 = time.time()
-        rc, out = sh('./check %s --tier %s' % (p, tier), cwd=V, env=env)
+        rc, out = sh('./check %s --tier %s%s' % (p, tier, (' --jobs ' + os.environ['VERIF_JOBS']) if os.environ.get('VERIF_JOBS') else ''), cwd=V, env=env)
         keys = sorted(set(re.findall(r'^   key=(\S+)', out, flags=re.M)))
         res['checks'][p] = {'exit': rc, 'violation_keys': keys[:12], 'wall_s': round(time.time() - t0),
                             'tail': out.strip().splitlines()[-2:][0][:300] if out.strip() else ''}
